@@ -510,6 +510,22 @@ theorem descendants_complete {c : Nat} : ∀ (j f : Nat), j ≤ c + f → j < a.
       have := ih (a.parent j) hp f' (by omega) (by omega) (parent_isTree h hj hr) e
       exact descendants_kid _ _ _ _ this hlist
 
+/-- every member of the parent chain of `j` is smaller than `j` and lies in the arena -/
+theorem ancestors_lt {i j : Nat} (hm : i ∈ Spec.ancestors a a.size j) : i < j ∧ i < a.size :=
+  ⟨anc_lt h (mem_ancestors.mp hm), anc_lt_size h (mem_ancestors.mp hm)⟩
+
+omit h in
+/-- more fuel never loses descendants -/
+theorem descendants_mono : ∀ (f c j : Nat), j ∈ Model.descendants a f c →
+    j ∈ Model.descendants a (f + 1) c
+  | 0, c, j, hj => by simp [Model.descendants] at hj
+  | f + 1, c, j, hj => by
+    obtain ⟨k, hk, hjk⟩ := mem_descendants_succ.mp hj
+    refine mem_descendants_succ.mpr ⟨k, hk, ?_⟩
+    rcases hjk with e | e
+    · exact Or.inl e
+    · exact Or.inr (descendants_mono f k j e)
+
 /-- T3: the descendant walker selects exactly the tree nodes that have the cursor as a
     proper ancestor -/
 theorem mem_descendants {c j : Nat} :
